@@ -205,14 +205,24 @@ def gen_man_tables():
     lit("m_manual", lib, r"let manual = %s\.to_owned\(\);" % S, "Man::new manual")
     if not re.search(r'let source = format!\(\s*"\{\} \{\}",\s*cmd\.get_name\(\),\s*cmd\.get_version\(\)\.unwrap_or_default\(\)\s*\);', lib):
         die("Man::new source has an unknown shape")
-    lit("rq_TH", lib, r"roff\.control\(%s, self\.title_args\(\)\);" % S, "TH")
+    lit("rq_TH", lib, r"let args = self\.title_args\(\);\s*roff\.control\(%s, args\.iter\(\)\.map\(String::as_str\)\);" % S, "TH")
+    if not re.search(r"fn title_args\(&self\) -> Vec<String> \{\s*\[\s*&self\.title,\s*&self\.section,\s*&self\.date,\s*"
+                     r"&self\.source,\s*&self\.manual,\s*\]\s*\.into_iter\(\)\s*\.map\(\|arg\| control_arg\(arg\)\)\s*\.collect\(\)", lib):
+        die("title_args has an unknown shape")
+    m = one(lib, r"fn control_arg\(arg: &str\) -> String \{\s*arg\.replace\(%s, %s\)\s*\}" % (C, S), "control_arg")
+    ca = tuple(lit_value(x) for x in m)
+    if len(ca[0]) not in (1, 2):
+        die("control_arg pattern length")
+    if not re.search(r'roff\.control\("SH", \[control_arg\(&heading\.to_uppercase\(\)\)\.as_str\(\)\]\);', lib) or \
+       not re.search(r'let heading = control_arg\(subcommand_heading\(&self\.cmd\)\);\s*roff\.control\("SH", \[heading\.as_str\(\)\]\);', lib):
+        die("the user-heading .SH sites no longer pass through control_arg")
     for sec in ["NAME", "SYNOPSIS", "DESCRIPTION", "OPTIONS", "EXTRA", "VERSION", "AUTHORS"]:
         m = re.findall(r'roff\.control\(("SH"), \[("%s")\]\);' % sec, lib)
         if len(m) != 1:
             die("section heading %s not found exactly once" % sec)
         d["rq_SH"] = lit_value(m[0][0])
         d["h_" + sec] = lit_value(m[0][1])
-    if len(re.findall(r'roff\.control\("SH", \[heading', lib)) != 2:
+    if len(re.findall(r'roff\.control\("SH", \[(?:control_arg\(&)?heading', lib)) != 2:
         die("expected two user-heading .SH sites in lib.rs")
     lit("h_SUBCOMMANDS", ren, r"None => %s,\s*\}\s*\}\s*pub\(crate\) fn about" % S, "subcommand_heading default")
     if not re.search(r'Some\(about\) => format!\("\{name\} - \{about\}"\),', ren):
@@ -237,6 +247,9 @@ def gen_man_tables():
         die("synopsis (short,None) arm changed")
     if not re.search(r'\(None, Some\(long\)\) => \{\s*line\.push\(roman\(lhs\)\);\s*line\.push\(bold\(format!\("--\{long\}"\)\)\);\s*line\.push\(roman\(rhs\)\);', ren):
         die("synopsis (None,long) arm changed")
+    if not re.search(r"for arg in cmd\.get_positionals\(\)\.filter\(\|i\| !i\.is_hide_set\(\)\) \{", ren) or \
+       not re.search(r"for opt in cmd\.get_arguments\(\)\.filter\(\|i\| !i\.is_hide_set\(\)\) \{", ren):
+        die("synopsis loops: hidden filters changed")
     d["syn_bar"] = b"|"
     lit("syn_dots", ren, r"ArgAction::Count\) \{\s*line\.push\(roman\(%s\)\);" % S, "synopsis ...")
     m = one(ren, r"if required \{\s*\(%s, %s\)\s*\} else \{\s*\(%s, %s\)\s*\}" % (S, S, S, S), "markers")
@@ -297,5 +310,7 @@ def gen_man_tables():
     ]
     for k in d:
         lines.append("Definition %s : bytes := %s. (* %s *)" % (k, cb(d[k]), show(d[k])))
+    lines.append("(* fn control_arg: arg.replace(%s, %s) *)" % (show(ca[0]), show(ca[1])))
+    lines.append("Definition control_arg_rule : bytes * bytes := (%s, %s)." % (cb(ca[0]), cb(ca[1])))
     lines.append("")
     return "ManTables.v", "\n".join(lines)
